@@ -232,6 +232,41 @@ ExpectedDriftShift(pre, post, c, i) ==
          -(DriftOf(LastOf(cp.eb).doff, ChanDur(cp) - IdleOrigin(cp))
            + DriftOf(LastOf(cq.eb).doff, ChanDur(cq) - ChanDur(cp)))
 
+(* C13: the documented EOM mode of a channel follows the successful enable / disable calls *)
+DocEom(hh, nm) ==
+  LET E == {k \in 1..Len(hh) : hh[k][2] = "ok" /\ Calls[hh[k][1]].op \in {"eom_on", "eom_off"}
+                               /\ Calls[hh[k][1]].nm = nm}
+  IN E # {} /\ Calls[hh[CHOOSE k \in E : \A l \in E : l <= k][1]].op = "eom_on"
+
+(* C15: buffers.  Adj = a wait as the channel can represent it *)
+AdjLen(cfg, x) == RoundUp(Max2(x, cfg.minDur), cfg.clock)
+(* remaining fall time of the channel's last pulse at its current end, weakest / strongest reading *)
+PendingFall(c, strong) ==
+  LET lp == LastPulseIdx(c, FALSE) IN
+  IF lp = 0 THEN 0
+  ELSE Max2(0, c.sl[lp].tf + (IF strong THEN FallStrong(c, c.sl[lp]) ELSE FallWeak(c, c.sl[lp])) - ChanDur(c))
+BuffersOK(pre, post, c, i) ==
+  LET cp == pre.ch[i]
+      cq == post.ch[i]
+      cfg == CfgOf(pre, i)
+      B == AdjLen(cfg, cfg.ebuf)
+      waitLo == IF PendingFall(cp, FALSE) > 0 THEN AdjLen(cfg, PendingFall(cp, FALSE)) ELSE 0
+      waitHi == IF PendingFall(cp, TRUE) > 0 THEN AdjLen(cfg, PendingFall(cp, TRUE)) ELSE 0
+  IN
+  CASE c.op = "eom_on" ->
+         \* on a non-empty channel: wait for the previous pulse to ramp down, then one buffer
+         IF ChanDur(cp) = 0 THEN LastOf(cq.eb).ti = ChanDur(cp)
+         ELSE /\ LastOf(cq.eb).ti >= ChanDur(cp) + waitLo + B
+              /\ LastOf(cq.eb).ti <= ChanDur(cp) + waitHi + B
+    [] c.op = "eom_mod" ->
+         IF ChanDur(cp) = 0 THEN LastOf(cq.eb).ti = 0
+         ELSE LastOf(cq.eb).ti = ChanDur(cp) + B
+    [] c.op = "eom_off" ->
+         /\ LastOf(cq.eb).tf = ChanDur(cp)
+         /\ IF cfg.ecustom THEN ChanDur(cq) = ChanDur(cp) + B
+            ELSE ChanDur(cq) >= ChanDur(cp) + waitLo /\ ChanDur(cq) <= ChanDur(cp) + waitHi
+    [] OTHER -> TRUE
+
 -----------------------------------------------------------------------------
 Viol(pre, c, r, h) ==
   LET post == r.st
@@ -389,6 +424,16 @@ Viol(pre, c, r, h) ==
   \* ---- C15 -------------------------------------------------------------
   \cup (IF \E x \in NewSlots(pre, post) : ~EomSquareOK(post.ch[x[1]], post.ch[x[1]].sl[x[2]])
         THEN {"C15.EomSquare"} ELSE {})
+  \cup (IF ok /\ i # 0 /\ c.op \in {"eom_on", "eom_mod", "eom_off"} /\ ~BuffersOK(pre, post, c, i)
+        THEN {"C15.Buffers"} ELSE {})
+  \* the mode of every channel is the one its successful enable / disable calls document
+  \cup (IF post.bld
+           /\ \E j \in 1..Len(post.ch) :
+                 LET nmj == post.ch[j].nm
+                     doc == IF rawOk /\ c.op \in {"eom_on", "eom_off"} /\ c.nm = nmj
+                            THEN c.op = "eom_on" ELSE DocEom(h, nmj)
+                 IN InEom(post.ch[j]) # doc
+        THEN {"C13.EomModeFollowsCalls"} ELSE {})
   \cup (IF cpd /\ ok /\ i # 0 /\ c.op \in {"eom_add", "eom_off", "eom_on", "eom_mod"}
         THEN LET e == ExpectedDriftShift(pre, post, c, i)
                  tgs == IF c.op = "eom_add" THEN lastTg ELSE LastOf(post.ch[i].sl).tg
